@@ -114,6 +114,20 @@ func (p *regExpParser) scanGroup() {
 
 // [...].
 func (p *regExpParser) scanBracket() {
+	// The opening bracket has been written already. ECMAScript allows the empty
+	// classes [] (matches nothing) and [^] (matches any character); re2 would
+	// read the leading ] as a literal.
+	if p.chr == ']' {
+		p.goRegexp.WriteString(`^\x{0}-\x{10FFFF}]`)
+		p.read()
+		return
+	}
+	if p.chr == '^' && p.offset < p.length && p.str[p.offset] == ']' {
+		p.goRegexp.WriteString(`\x{0}-\x{10FFFF}]`)
+		p.read()
+		p.read()
+		return
+	}
 	for p.chr != -1 {
 		if p.chr == ']' {
 			break
